@@ -281,13 +281,13 @@ def effective(classes):
         if not c["mc"]:
             if c["defs"]:
                 eff[cid] = list(c["defs"])
-                KIND[cid] = "flagged" if c.get("marked") else "plain"
+                KIND[cid] = "flagged" if (c.get("marked") or c.get("ext")) else "plain"  # (either renders the decorator)
             else:
                 eff[cid] = eff[with_f[0]] if with_f else None
                 KIND[cid] = KIND[with_f[0]] if with_f else None
             continue
         # class creation pre-merge: the first overloaded base + later FLAGGED bases + plain-function bases
-        ovl = [b for b in with_f if KIND[b] in ("ovld", "flagged")]
+        ovl = [b for b in with_f if KIND[b] in ("ovld", "flagged", "pending")]
         pre = None
         if len(ovl) >= 2 and any(KIND[b] == "flagged" for b in ovl[1:]):
             later = [b for b in ovl[1:] if KIND[b] == "flagged"]
@@ -309,7 +309,9 @@ def effective(classes):
             KIND[cid] = KIND[own[0]] if own else None
         elif c["ext"]:
             eff[cid] = overlay([eff[b] for b in with_f] + [c["defs"]])
-            KIND[cid] = "ovld"
+            # with no inherited method to pull, the marker may stay on the attribute ("pending"): what a later
+            # multi-base class makes of it is not documented
+            KIND[cid] = "ovld" if with_f else "pending"
         else:
             eff[cid] = list(c["defs"])
             KIND[cid] = "ovld"
@@ -335,8 +337,11 @@ def unsupported(classes):
         if not c["mc"]:
             continue
         with_f = [b for b in c["bases"] if eff[b] is not None]
-        ovl = [b for b in with_f if kind[b] in ("ovld", "flagged")]
+        ovl = [b for b in with_f if kind[b] in ("ovld", "flagged", "pending")]
         merged = len(ovl) >= 2 and any(kind[b] == "flagged" for b in ovl[1:])
+        if len(with_f) >= 2 and any(kind[b] == "pending" for b in with_f):
+            bad.add(c["id"])  # a base whose extend_super marker found nothing to extend
+            continue
         if len(with_f) >= 2 and not c["ext"] and not merged and c["defs"]:
             bad.add(c["id"])  # several bases carrying overloads, own definitions, nothing asks for a merge
         if (c["ext"] or merged) and len(with_f) >= 2:
